@@ -75,6 +75,16 @@ static void diff_statics(void) {
     for (int i = 0; i < nstat; i++) if (memcmp(stat_[i].copy, stat_[i].addr, stat_[i].size)) { OUT("%s%s", any ? "," : " st=", stat_[i].name); any = 1; }
 }
 
+/* ---- C20: allocator interposition (-Wl,--wrap=malloc,...): fail the k-th request made during the call ---- */
+void *__real_malloc(size_t); void __real_free(void *); void *__real_realloc(void *, size_t); void *__real_calloc(size_t, size_t);
+static volatile int al_active; static long al_count, al_fail_at, al_failed, al_frees; static void *al_live[256]; static int al_nlive;
+static void al_add(void *p) { if (p && al_nlive < 256) al_live[al_nlive++] = p; }
+static void al_del(void *p) { for (int i = 0; i < al_nlive; i++) if (al_live[i] == p) { al_live[i] = al_live[--al_nlive]; al_frees++; return; } }
+void *__wrap_malloc(size_t n) { if (!al_active) return __real_malloc(n); if (++al_count == al_fail_at) { al_failed++; errno = ENOMEM; return NULL; } void *p = __real_malloc(n); al_add(p); return p; }
+void *__wrap_calloc(size_t a, size_t b) { if (!al_active) return __real_calloc(a, b); if (++al_count == al_fail_at) { al_failed++; errno = ENOMEM; return NULL; } void *p = __real_calloc(a, b); al_add(p); return p; }
+void *__wrap_realloc(void *q, size_t n) { if (!al_active) return __real_realloc(q, n); if (++al_count == al_fail_at) { al_failed++; errno = ENOMEM; return NULL; } void *p = __real_realloc(q, n); if (p) { al_del(q); al_frees -= (q != NULL && al_frees > 0) ? 1 : 0; al_add(p); } return p; }
+void __wrap_free(void *p) { if (al_active && p) al_del(p); __real_free(p); }
+
 /* ---- variadic calls: every variadic argument belongs to one of three ABI classes ---- */
 #define A_I(k) (args[vstart + (k)].u)
 #define A_D(k) (args[vstart + (k)].d)
@@ -154,9 +164,12 @@ int main(int argc, char **argv) {
             for (size_t k = 0; k < sz; k++) blk[i].start[k] = (uint8_t)(hexval(hex[2 * k]) * 16 + hexval(hex[2 * k + 1]));
             /* bytes of the mapped pages outside the block: fixed filler (never compared) */
         }
-        sscanf(p, " %d%n", &nargs, &n); p += n; vstart = nargs;
-        for (int i = 0; i < nargs; i++) {
+        sscanf(p, " %d%n", &nargs, &n); p += n; vstart = nargs; al_fail_at = -1;
+        { int ntok = nargs, j = 0;
+        for (int t = 0; t < ntok; t++) {
             char tok[64]; sscanf(p, " %63s%n", tok, &n); p += n;
+            if (tok[0] == 'K') { al_fail_at = strtol(tok + 1, 0, 10); nargs--; continue; }   /* not an argument */
+            int i = j++;
             args[i].tag = tok[0];
             if (tok[0] == 'N') args[i].u = 0;
             else if (tok[0] == 'P') { int b; long off; sscanf(tok + 1, "%d:%ld", &b, &off); args[i].u = (uint64_t)(uintptr_t)(blk[b].start + off); }
@@ -166,11 +179,17 @@ int main(int argc, char **argv) {
             else if (tok[0] == 'G') { args[i].L = strtold(tok + 1, 0); }
             else if (tok[0] == 'V') { vstart = i + 1; }
         }
+        if (vstart > nargs) vstart = nargs; }
         hn = 0; fault_sig = 0; errno = 0; have_cap = 0; caplen = 0; snap_statics();
+        al_count = 0; al_failed = 0; al_frees = 0; al_nlive = 0;
         OUT("%s ret=", id);
         if (!sigsetjmp(jb, 1)) {
-            if (!dispatch(func)) OUT("UNKNOWN");
-        } else OUT("FAULT");
+            al_active = al_fail_at >= 0;
+            int known_ = dispatch(func);
+            al_active = 0;
+            if (!known_) OUT("UNKNOWN");
+        } else { al_active = 0; OUT("FAULT"); }
+        if (al_fail_at >= 0) OUT(" al=%ld/%ld/%ld/%d", al_count, al_frees, al_failed, al_nlive);
         OUT(" h=");
         if (hn == 0) OUT("-");
         for (int i = 0; i < hn && i < 64; i++) OUT("%s%c:%d", i ? "," : "", hlog[i].kind, hlog[i].code);
